@@ -200,7 +200,7 @@ def _err_type(ty):
     return e if any(w in e for w in WS_ERR) else None
 
 
-def err_swallow(ctx, pfx, prefixes, exceptions):
+def err_swallow(ctx, pfx, prefixes, exceptions, min_sites=5):
     """RF-ERR (matched/converted half): a `Result<_, workspace error>` obtained in the listed modules is never turned
     into a non-error outcome wholesale.  Two shapes are inspected on every run:
       (1) adaptors that drop the error (`.ok()`, `.is_ok()`, `.unwrap_or*()`, `.map_or*()`, `.or*()`);
@@ -301,7 +301,7 @@ def err_swallow(ctx, pfx, prefixes, exceptions):
         seen.add((base, what))
         ctx.ob('%s.ERR.swallow[%s:%s]' % (pfx, base.split('::')[-1], what), 'RF-ERR', False, base, where, reason,
                key='RF-ERR|swallow|%s|%s' % (base, what))
-    ctx.ob('%s.ERR.swallow.sites' % pfx, 'RF-ERR', n >= 5, ','.join(prefixes), None,
+    ctx.ob('%s.ERR.swallow.sites' % pfx, 'RF-ERR', n >= min_sites, ','.join(prefixes), None,
            '%d matches/adaptors on Result<_, workspace error> inspected, %d swallow the error, %d named exceptions in use' % (n, len(seen), len(used)),
            key='RF-ERR|%s|swallow.sites' % pfx)
     for e in exceptions:
